@@ -331,6 +331,10 @@ else:
 def is_date(instance):
     if not isinstance(instance, str):
         return True
+    # RFC 3339 full-date only: date.fromisoformat also accepts other
+    # ISO 8601 spellings such as 20200101 or 2020-W01-1
+    if not re.fullmatch(r"[0-9]{4}-[0-9]{2}-[0-9]{2}", instance):
+        return False
     return _is_date(instance)
 
 
